@@ -39,6 +39,13 @@ def node_names(rng, n, kind=None):
         return names
     if kind == "tuple":
         return [["n", i] for i in rng.sample(range(20), n)]
+    if kind == "mixed":
+        # variable names of different types in ONE model (str, int, tuple): hashable, but not comparable with each other
+        pool = ["A", "B", "C", "rain", 1, 2, 3, 7, ["n", 0], ["n", 1], ["s", "x"], "D", 11, ["t", 2]]
+        while True:
+            names = rng.sample(pool, n)
+            if n == 1 or len({type(lab(x)) for x in names}) > 1:
+                return names
     raise ValueError(kind)
 
 
